@@ -266,7 +266,7 @@ def numberize(rng, case, p=0.25):
     def rec(items, top_ell=False):
         for i, n in enumerate(items):
             if isinstance(n, Ax):
-                if counts.get(n.name) == 1 and not top_ell and n.name in case.var_sizes and len(case.var_sizes[n.name]) == 1 and case.var_group.get(n.name) is None and rng.random() < p:
+                if counts.get(n.name) == 1 and not top_ell and n.name in case.var_sizes and len(case.var_sizes[n.name]) == 1 and case.var_group.get(n.name) is None and (rng.random() < p or n.name in case.note.get("force_number", ())):
                     if case.family == "elementwise" and case.outputs is None and case.var_sizes[n.name][0] == 1:
                         continue  # a literal 1 is ignored by the implicit-output rule, a named unit axis is not
                     num = Num(case.var_sizes[n.name][0])
@@ -665,7 +665,18 @@ def gen_reduce(rng, P, op=None):
         # no brackets, explicit output: axes missing from the output are reduced; no name twice
         atoms_ = [(atom(v, case, rng), False) for v in perm(rng, vec + red)]
         case.inputs = [structure(rng, atoms_, case, P["flat_p"])]
-        out_atoms = _atoms(case, rng, perm(rng, vec))
+        # output-only (broadcast) axes: after numberize they may print like a reduced numeric input axis ("a 3 b -> a 3")
+        ovs_ = _out_with_broadcast(rng, namer, case, list(vec), maxlen, 0.3)
+        extra_ = [v for v in ovs_ if v not in vec]
+        if extra_ and rng.random() < 0.6:
+            # the same number on both sides denotes two different axes: force that situation
+            rv, bv = rng.choice(red), rng.choice(extra_)
+            if rv.sizes[0] != 1:
+                bv.sizes[0] = rv.sizes[0]
+                case.var_sizes[bv.name] = bv.sizes
+                case.note.setdefault("force_number", set()).update({rv.name, bv.name})
+                case.feats.add("equal-numbers-both-sides")
+        out_atoms = _atoms(case, rng, perm(rng, ovs_))
         case.outputs = [structure(rng, out_atoms, case, P["flat_p"])]
         # effective: brackets on the reduced axes
         eff_in_atoms = None
